@@ -7,6 +7,7 @@ package c19drv
 
 import (
 	"encoding/json"
+	"fmt"
 	"os"
 	"testing"
 	"time"
@@ -114,6 +115,12 @@ func (skipInv) Get(o string) interface{} {
 }
 
 func newAppOpts(t *testing.T, skipGenesisInvariants bool) *osmoapp.OsmosisApp {
+	return newAppOn(t, cosmosdb.NewMemDB(), skipGenesisInvariants)
+}
+
+// newAppOn builds an application over the given database and loads its latest committed version (what a node does when
+// it starts); every in-memory structure of the keepers starts empty
+func newAppOn(t *testing.T, db cosmosdb.DB, skipGenesisInvariants bool) *osmoapp.OsmosisApp {
 	dir, err := os.MkdirTemp("", "c19-home")
 	if err != nil {
 		panic(err)
@@ -123,7 +130,7 @@ func newAppOpts(t *testing.T, skipGenesisInvariants bool) *osmoapp.OsmosisApp {
 	if skipGenesisInvariants {
 		opts = skipInv{}
 	}
-	return osmoapp.NewOsmosisApp(log.NewNopLogger(), cosmosdb.NewMemDB(), nil, true, map[int64]bool{}, dir, 0,
+	return osmoapp.NewOsmosisApp(log.NewNopLogger(), db, nil, true, map[int64]bool{}, dir, 0,
 		opts, osmoapp.EmptyWasmOpts, baseapp.SetChainID(chainID))
 }
 
@@ -142,6 +149,19 @@ type chain struct {
 	*apph.Helper
 	height int64
 	now    time.Time
+	db     cosmosdb.DB
+	t      *testing.T
+}
+
+// restart: what a node does when it is stopped and started again between two blocks - a new application instance over
+// the same database, loading the latest committed version. Every in-memory cache of the keepers starts empty.
+func (c *chain) restart() {
+	a := newAppOn(c.t, c.db, false)
+	if a.LastBlockHeight() != c.height-1 {
+		panic(fmt.Sprintf("restart: loaded height %d, expected %d", a.LastBlockHeight(), c.height-1))
+	}
+	c.App = a
+	c.Ctx = a.BaseApp.NewUncachedContext(false, cmtproto.Header{Height: c.height, ChainID: chainID, Time: c.now})
 }
 
 func attach(t *testing.T, a *osmoapp.OsmosisApp, height int64, now time.Time) *chain {
@@ -155,7 +175,8 @@ func attach(t *testing.T, a *osmoapp.OsmosisApp, height int64, now time.Time) *c
 
 // newChain: InitChain from the constant genesis; the context is the one of the first block (height 1).
 func newChain(t *testing.T) *chain {
-	a := newApp(t)
+	db := cosmosdb.NewMemDB()
+	a := newAppOn(t, db, false)
 	gs := deterministicGenesis(a)
 	bz, err := json.Marshal(gs)
 	if err != nil {
@@ -172,6 +193,7 @@ func newChain(t *testing.T) *chain {
 		panic(err)
 	}
 	c := attach(t, a, 1, genesisTime)
+	c.db, c.t = db, t
 	c.SetEpochStartTime()
 	// as KeeperTestHelper.Setup does: validator signing info, otherwise slashing's BeginBlocker fails
 	vals, err := a.StakingKeeper.GetAllValidators(c.Ctx)
